@@ -562,3 +562,12 @@ func init() {
 	addMutant(Mutant{Name: "c32-firstchild-plain-dir", Property: "C32", File: "util/path.go",
 		Old: "\t\t\tns, ok = choiceCaseChild(s, path[i])\n", New: "\t\t\tns, ok = nil, false\n", Expect: "util.firstMatching:descent-loop"})
 }
+
+func init() {
+	// R-PATHKEY-CANON (C10, C13)
+	addMutant(Mutant{Name: "c10-pathkey-raw-compare", Property: "C10", File: "ytypes/node.go",
+		Old: "if keyAsString == canonicalPathKey(pathKey, reflect.TypeOf(kv)) {", New: "if keyAsString == pathKey {", Expect: "retrieveNodeList:path-key(pathKey)#1"})
+	addMutant(Mutant{Name: "c13-pathkey-trimmed-not-parsed", Property: "C13", File: "ytypes/node.go",
+		Old: "pathKeyVals[schema.Key] = canonicalPathKey(pathKey, keyType)", New: "pathKeyVals[schema.Key] = strings.TrimSpace(pathKey)", Expect: "retrieveNodeOrderedList:path-key(pathKey)#2",
+		More: []Edit{{File: "ytypes/node.go", Old: "import (\n", New: "import (\n\t\"strings\"\n"}}})
+}
